@@ -21,7 +21,7 @@ func VerifH_C16_api_failing_call() {
 
 	// one failing call
 	var ferr error
-	switch vrt.Choice(15) {
+	switch vrt.Choice(18) {
 	case 0:
 		_, ferr = fw.CreateDataset("/nope/d", Int32, []uint64{1}) // missing parent
 	case 1:
@@ -60,6 +60,13 @@ func VerifH_C16_api_failing_call() {
 		ferr = fw.CreateDenseGroup("/dg", map[string]string{"x": "/nothing"}) // link target missing
 	case 14:
 		ferr = fw.CreateExternalLink("/missing/e", "other.h5", "/x") // parent missing
+	case 15:
+		// extents whose byte size does not fit 64 bits (the product wraps to 4 bytes)
+		_, ferr = fw.CreateDataset("/o", Int32, []uint64{1<<62 + 1})
+	case 16:
+		_, ferr = fw.CreateDataset("/o", Int32, []uint64{1<<32 + 1, 1 << 32}) // element count wraps
+	case 17:
+		_, ferr = fw.CreateDataset("/o", Int32, []uint64{1<<62 + 1}, WithChunkDims([]uint64{1024}))
 	}
 	vrt.Assert(ferr != nil, "invalid-call-returns-error")
 
